@@ -16,10 +16,10 @@ from sx import rt, sched
 from sx.core import ctx
 from sx.values import SymBool
 
-BOUNDS = {"quick": {"threads": 2, "calls": "every registered German method object: one caller (all accounts) against an adversary thread that overwrites each shared location with any value 0..10 before each of the caller's accesses; additionally two real logical threads validate x validate with two symbolic accounts (all schedules) for methods 02, 09, 91 (thorough: 16, 25, 06, 10, 11, 23 as well, 3 threads for 02); the adversary harness through IBAN(..., validate_bban=True) for 9 methods (thorough: all); non-German singletons must write nothing at call time", "switch points": "reads and writes of every attribute of a pre-existing object that the calls write"},
+BOUNDS = {"quick": {"threads": 2, "calls": "every registered German method object: one caller (all accounts) against an adversary thread that overwrites each shared location with any value 0..10 before each of the caller's accesses; additionally two real logical threads validate x validate with two symbolic accounts (all schedules) for methods 02, 09, 91 (thorough: 16, 25, 06, 10, 11, 23 as well); the adversary harness through IBAN(..., validate_bban=True) for 9 methods (thorough: all); non-German singletons must write nothing at call time", "switch points": "reads and writes of every attribute of a pre-existing object that the calls write"},
           "thorough": {"threads": "2 (3 for methods with <= 4 paths)", "calls": "as quick, public API for all methods", "switch points": "as quick"}}
 STUBS = ["baton scheduler over real threads; switches only at shared-location accesses (thread-local steps commute)"]
-ASSUMPTIONS = ["CPython-internal atomicity (a switch inside a C call), pycountry's lazy-load lock and more than 3 threads are outside the claim",
+ASSUMPTIONS = ["CPython-internal atomicity (a switch inside a C call), pycountry's lazy-load lock and schedules of more than 2 scheduler threads are outside the claim (the adversary harness stands for any number of interfering threads)",
                "shared locations = attributes written by the calls under test on objects that pre-exist them (found by the write monitor in a solo pre-pass); registries are read-only at call time (C15)"]
 MAXTASKS = 10
 JOB_BUDGET_S = 1500
@@ -45,8 +45,8 @@ def jobs(tier, seed):
         cs = per.get(m, [])
         if len(cs) >= 1:
             out.append({"kind": "api", "m": m, "codes": [cs[0], cs[-1]]})
-    if tier == "thorough":
-        out += [{"kind": "algo", "key": k, "threads": 3} for k in ("DE:02",)]
+    # three logical threads were tried for method 02: 12,290 paths in 900 s without exhausting the schedules, so the
+    # scheduler jobs stay at two threads (the adversary jobs cover any number of interfering threads)
     return out
 
 
